@@ -164,6 +164,10 @@ class RunTest:
         if self.exception_caught is self._run_user(self.case._run_setup, self.result):
             # Don't run the test method if we failed getting here.
             self._run_cleanups(self.result)
+            if getattr(self.case, "force_failure", None):
+                # An expectation that failed before setUp gave up still
+                # fails the test (setUp may have ended in a skip).
+                self._run_user(_raise_force_fail_error)
             return
         # Run everything from here on in. If any of the methods raise an
         # exception we'll have failed.
